@@ -293,7 +293,9 @@ let vfmode file =
         (match String.sub tok 0 (min 3 (String.length tok)) with
          | "ps:" ->
              (* model-only line: do the hypotheses of theorem C07_pcm_seek_checked hold for this seek? *)
-             Printf.printf "thm %s %d\n" tok (if seek_hyps s (zi (arg ())) then 1 else 0);
+             (if iz s.v_hs = 1
+              then Printf.printf "thmh %s %d\n" tok (if seek_hyps_h s (zi (arg ())) then 1 else 0)
+              else Printf.printf "thm %s %d\n" tok (if seek_hyps s (zi (arg ())) then 1 else 0));
              let (r, s') = pcm_seek s (zi (arg ())) in st := Some s'; show tok (iz r) (-1) time implraw
          | "pp:" -> let (r, s') = pcm_seek_page s (zi (arg ())) in st := Some s'; show tok (iz r) (-1) time implraw
          | "rs:" -> let (r, s') = raw_seek s (zi (arg ())) in st := Some s'; show tok (iz r) (-1) time implraw
